@@ -373,7 +373,13 @@ func (p *poller) readWriteLoop() {
 					}
 
 					if ev.Events&epollEventsError != 0 {
-						_ = c.closeWithError(io.EOF)
+						// The peer has closed or half-closed: what it sent before
+						// that is still to be delivered, then close.
+						if g.onRead == nil && !c.IsUDP() {
+							c.closeAfterDrain(asyncReadEnabled)
+						} else {
+							_ = c.closeWithError(io.EOF)
+						}
 						continue
 					}
 				}
